@@ -424,4 +424,26 @@ def checkEngine2 (params : List String) (lines : List String) : CaseResult := Id
       k := k + 1
   return { r with specs := sp, nontrivial := contd.toList.any (· > 0) }
 
+/-- Family `c13many`: a cycle timer with an end bound on a clock that holds `n` other pending wake-ups; one clock change
+passes the next repetition's due time, the bound and all of them. The first repetition (exactly at its due time) is
+delivered every time; nothing is delivered once the clock reads beyond the bound. -/
+def checkMany (params lines : List String) : CaseResult := Id.run do
+  let mut r : CaseResult := { nontrivial := true }
+  let n := params.getD 0 "?"
+  let mut seen := false
+  for ln in lines do
+    match words ln with
+    | "harness-error" :: _ => r := { r with bad := ln :: r.bad }
+    | "obs" :: "stuck" :: _ =>
+      r := { r with specs := s!"timer_neither_fires_nor_ends: after the clock passed the end bound ({n} other wake-ups pending)" :: r.specs }
+    | ["obs", "first", f, "late", l, "of", k] =>
+      seen := true
+      if f != k then
+        r := { r with specs := s!"cycle_first_repetition_missing: {f} of {k} first repetitions delivered at their due time" :: r.specs }
+      if l != "0" then
+        r := { r with specs := s!"fires_after_end_bound: a repetition was delivered in {l} of {k} attempts although the clock already read 60 s, end bound 25 s ({n} other wake-ups made due by the same clock change)" :: r.specs }
+    | _ => pure ()
+  if !seen && r.specs.isEmpty && r.bad.isEmpty then r := { r with bad := ["c13many: incomplete record"] }
+  return r
+
 end Bpmn.Driver.C13
